@@ -15,7 +15,7 @@ BASE = dict(UsersA={"a1", "a2"}, UsersB={"b1"}, Daemons="@{}", OpsA="@{}", OpsB=
             FixRace=False, HoldBack=True, FixSendall=True, FixCredit=True, Mut="none", SpinCap=3)
 # the repaired setting: the hand-over stays outside the lock; EOF/CLOSE are held back behind data messages in flight and
 # handed over by the last in-flight sender (nobody waits).  MINVS adds the model-only forms (queue contents are not observable)
-MINVS = INVS + ["CloseAnsweredExact", "QueueDrains"]
+MINVS = INVS + ["CloseAnsweredExact", "QueueDrains", "InflightBalanced"]
 LIVE = dict(spec="FairSpec", properties=["AnsweredEventually", "DrainsEventually"])
 U = 4032
 SITES = {"close": "close", "shutdown_write": "shutdown", "shutdown_rw": "shutdown"}
@@ -54,6 +54,13 @@ def model(c, runs):
                      cfg=cfg_text(constants=parked, invariants=MINVS)))
     jobs.append(dict(name="sensitivity: no_exit_recheck (woken by an adjust, the writer does not look at eof_sent / closed again)", module="Channel",
                      expect="NoDataAfterCtl", cfg=cfg_text(constants=dict(parked, Mut="no_exit_recheck"), invariants=MINVS)))
+    # exits of _send that built no message (timeout / non-blocking at window 0, closed, return 0) must leave the counter alone
+    fails = dict(BASE, OpsA={"send", "close"}, OpsB={"recv"}, MaxCalls=2, W0=2, SendN=2, Thresh=0, Modes={"nonblock", "timed"})
+    jobs.append(dict(name="sensitivity: done_always (_send_done also runs where nothing was counted: counter at -1, EOF/CLOSE overtake)", module="Channel",
+                     expect="InflightBalanced|NoDataAfterCtl", cfg=cfg_text(constants=dict(fails, Mut="done_always"), invariants=MINVS)))
+    if not c.quick:
+        jobs.append(dict(name="hold-back repair: failing sends (timed / non-blocking at window 0, closed) before the racing send / close", module="Channel",
+                         kw={"timeout": 850, "workers": 6}, cfg=cfg_text(constants=fails, invariants=MINVS)))
     # the pinned tree: message built under the lock, handed over after releasing it
     pairs = PAIRS[:1] if c.quick else PAIRS     # (each TLC start costs seconds on a busy machine)
     for name, a, b in pairs:
@@ -129,6 +136,14 @@ FIXED = [
     {"threads": {"a1": [("send", 100)], "a2": [("close",)]}},
     {"threads": {"a1": [("send_err", 100)], "a2": [("shutdown_write",)]}},
     {"threads": {"a1": [("sendall", 100)], "b1": [("close",)]}},
+    # a send that fails BEFORE the racing pair: non-blocking / timed at window 0 (socket.timeout), or on a closed channel
+    {"threads": {"a1": [("send", 32768), ("send", 100), ("await_window",), ("send", 100)], "a2": [("close",)], "b1": [("recv", 65536)]},
+     "pkt": 65536, "tmo": "nonblock"},
+    {"threads": {"a1": [("send", 32768), ("send", 100), ("await_window",), ("send_err", 100)], "a2": [("shutdown_write",)], "b1": [("recv", 65536)]},
+     "pkt": 65536, "tmo": "timed"},
+    {"threads": {"a1": [("send", 32768), ("sendall", 100), ("await_window",), ("send", 100)], "b1": [("recv", 65536), ("close",)]},
+     "pkt": 65536, "tmo": "nonblock"},
+    {"threads": {"a1": [("send", 100)], "a2": [("close",)], "a3": [("send", 5), ("send", 5)]}},
     # a writer parked at window 0 (first send takes the whole window), then shutdown_write / shutdown(2) / close from another
     # thread, then the peer reads and its WINDOW_ADJUST is delivered - every order of adjust vs. EOF/CLOSE hand-over is a schedule
     {"threads": {"a1": [("send", 32768), ("send", 100)], "a2": [("shutdown_write",)], "b1": [("recv", 65536)]}, "pkt": 65536},
@@ -180,7 +195,7 @@ def run(c):
     progs = []
     for p in FIXED:
         pk = p.get("pkt", 4096)
-        prog = {"par": {"win": {"A": 32768, "B": 32768}, "pkt": {"A": pk, "B": pk}, "tmo": {"A": "block", "B": "block"}},
+        prog = {"par": {"win": {"A": 32768, "B": 32768}, "pkt": {"A": pk, "B": pk}, "tmo": {"A": p.get("tmo", "block"), "B": "block"}},
                 "threads": p["threads"]}
         if "fail" in p:
             prog["par"]["fail"] = p["fail"]
